@@ -35,6 +35,7 @@ static CUR: AtomicUsize = AtomicUsize::new(0);
 static PEAK: AtomicUsize = AtomicUsize::new(0);
 static LARGEST: AtomicUsize = AtomicUsize::new(0);
 static NALLOC: AtomicU64 = AtomicU64::new(0);
+const CHILD_STACK: usize = 2 << 20;
 const MAX_SINGLE: usize = 2 << 30;
 const MAX_LIVE: usize = 3 << 30;
 
@@ -606,6 +607,35 @@ fn p_lru(b: &[u8], env: &Env) -> Result<Val, String> {
         (_, Err(e)) => Err(e),
     }
 }
+/// a checkpoint that loads must be usable: the operations every caller performs next must not panic
+fn p_lru_ops(b: &[u8], env: &Env) -> Result<Val, String> {
+    use cascette_client_storage::lru::LruManager;
+    use cascette_client_storage::lru::lru_file::lru_file_path;
+    let dir = env.tmp.join("lru_ops");
+    std::fs::create_dir_all(&dir).map_err(|e| e.to_string())?;
+    let generation = 9u64;
+    std::fs::write(lru_file_path(&dir, generation), b).map_err(|e| e.to_string())?;
+    let mut m = LruManager::new(8, dir.clone());
+    env.rt.block_on(m.load_from_disk(generation)).map_err(|e| e.to_string())?;
+    let mut keys: Vec<[u8; 9]> = Vec::new();
+    m.for_each_entry(|k| {
+        if keys.len() < 64 {
+            keys.push(*k);
+        }
+    });
+    for k in keys.iter().take(3) {
+        let _ = m.touch(k);
+    }
+    let _ = m.touch(&[0xAB; 9]);
+    if let Some(k) = keys.last() {
+        let _ = m.remove(k);
+    }
+    let _ = m.evict_tail();
+    let _ = m.evict_to_target(40, 20);
+    let mut n = 0u64;
+    m.for_each_entry(|_| n += 1);
+    Ok(unit())
+}
 fn p_shmem(b: &[u8], _: &Env) -> Result<Val, String> {
     use cascette_client_storage::shmem::control_block::{PidTracking, ShmemControlBlock};
     let p = PidTracking::from_mapped(b);
@@ -774,6 +804,7 @@ static FORMATS: &[Fmt] = &[
     Fmt { name: "update_section", decomp: false, text: false, parse: p_update_section, rt: None, weight: 2 },
     Fmt { name: "residency", decomp: false, text: false, parse: p_residency, rt: None, weight: 3 },
     Fmt { name: "lru", decomp: false, text: false, parse: p_lru, rt: None, weight: 3 },
+    Fmt { name: "lru_ops", decomp: false, text: false, parse: p_lru_ops, rt: None, weight: 3 },
     Fmt { name: "shmem", decomp: false, text: false, parse: p_shmem, rt: None, weight: 2 },
     Fmt { name: "build_info", decomp: false, text: true, parse: p_build_info, rt: None, weight: 2 },
     Fmt { name: "dirnames", decomp: false, text: true, parse: p_dirnames, rt: None, weight: 4 },
@@ -942,6 +973,12 @@ fn build_size_seed(ver: u8) -> Result<Vec<u8>, String> {
     b = b.tag_file(0, 1).tag_file(0, 3);
     b.build().map_err(es)?.build().map_err(es)
 }
+/// V1 size manifest with 8-byte esizes, no tag, two entries (esize fields at 28 and 45)
+fn build_size_w8_seed() -> Result<Vec<u8>, String> {
+    use cascette_formats::size::SizeManifestBuilder;
+    let b = SizeManifestBuilder::new().version(1).ekey_size(9).esize_bytes(8).add_entry(k9(0xE3, 1).to_vec(), 0x0102_0304_0506_0708).add_entry(k9(0xE3, 2).to_vec(), 0x1112_1314_1516_1718);
+    b.build().map_err(es)?.build().map_err(es)
+}
 fn build_tvfs_seed(est: bool) -> Result<Vec<u8>, String> {
     use cascette_formats::tvfs::TvfsBuilder;
     let mut b = if est { TvfsBuilder::with_flags(0x7) } else { TvfsBuilder::new() };
@@ -1106,6 +1143,111 @@ fn name_with(base: &str, off: usize, ins: &[u8]) -> Vec<u8> {
     }
     n
 }
+/// a text vector [site, lit, unit, depth, opener] applied to a seed text: the `site`-th run of digits is replaced
+/// by the literal (+ unit), then the whole text is wrapped `depth` times into the format's `opener`
+fn text_of_vector(fmt: &str, v: &Value, seed: &[u8]) -> (Vec<u8>, String) {
+    let num = |k: &str| v[k].as_str().and_then(|t| t.strip_prefix("n:")).and_then(|t| t.parse::<usize>().ok());
+    let mut b = seed.to_vec();
+    let mut how = String::new();
+    let lit = v["lit"].as_str().unwrap_or("typ");
+    if lit != "typ" {
+        let lit = if lit == "huge" { "9".repeat(80) } else { lit.to_string() };
+        let unit = match v["unit"].as_str() {
+            Some("K") => "K",
+            Some("M") => "M",
+            Some("star32") => "*4294967295",
+            Some("star33") => "*4294967296",
+            _ => "",
+        };
+        let runs = digit_runs(&b);
+        let ins = format!("{lit}{unit}").into_bytes();
+        if runs.is_empty() {
+            let _ = b.splice(0..0, ins);
+        } else {
+            let (s, e) = runs[num("site").unwrap_or(0) % runs.len()];
+            let _ = b.splice(s..e, ins);
+        }
+        how.push_str(&format!("lit={lit}{unit}@site{},", num("site").unwrap_or(0)));
+    }
+    if let Some(n) = num("depth") {
+        let ops = openers(fmt);
+        let (open, close) = ops[num("opener").unwrap_or(0) % ops.len()];
+        let mut w = open.repeat(n).into_bytes();
+        w.extend_from_slice(&b);
+        w.extend_from_slice(close.repeat(n).as_bytes());
+        b = w;
+        how.push_str(&format!("depth={n}x{open:?},"));
+    }
+    (b, how)
+}
+/// a ZBSDIFF1 patch whose *decoded* control block holds the entries of the vector (seek classes of three
+/// entries, then one entry that applies `diff3` diff bytes): the control block is zlib data, out of reach of
+/// byte mutations
+fn zbs_of_vector(v: &Value) -> (Vec<u8>, String) {
+    use cascette_formats::zbsdiff::{ControlBlock, ControlEntry, compress_zlib};
+    let seek = |k: &str| -> i64 {
+        match v[k].as_str() {
+            Some("zero") => 0,
+            Some("one") => 1,
+            Some("under") => -1,
+            Some("halfm1") => i64::MAX / 2,
+            Some("max") => i64::MAX,
+            Some("maxm1") => -i64::MAX,
+            _ => 5,
+        }
+    };
+    let diff3: i64 = match v["diff3"].as_str() {
+        Some("zero") => 0,
+        Some("one") => 1,
+        _ => 4,
+    };
+    let entries = vec![ControlEntry::new(1, 0, seek("seek0")), ControlEntry::new(0, 1, seek("seek1")), ControlEntry::new(0, 0, seek("seek2")), ControlEntry::new(diff3, 0, 0)];
+    let how = format!("control={:?}", entries.iter().map(|e| (e.diff_size, e.extra_size, e.seek_offset)).collect::<Vec<_>>());
+    let out_size = 2 + diff3;
+    let ctl = ControlBlock::with_entries(entries).and_then(|c| c.to_compressed()).unwrap_or_default();
+    let diff = compress_zlib(&vec![1u8; (1 + diff3) as usize]).unwrap_or_default();
+    let extra = compress_zlib(&[7u8]).unwrap_or_default();
+    let mut b = Vec::new();
+    b.extend_from_slice(b"ZBSDIFF1");
+    b.extend_from_slice(&(ctl.len() as i64).to_le_bytes());
+    b.extend_from_slice(&(diff.len() as i64).to_le_bytes());
+    b.extend_from_slice(&out_size.to_le_bytes());
+    b.extend_from_slice(&ctl);
+    b.extend_from_slice(&diff);
+    b.extend_from_slice(&extra);
+    (b, how)
+}
+/// inputs that are generated instead of stored (replay files: {"fmt":..,"gen":"zbomb:1200"}): decompression bombs
+fn generate(spec: &str) -> Vec<u8> {
+    use cascette_formats::zbsdiff::{ControlBlock, ControlEntry, compress_zlib};
+    let (kind, arg) = spec.split_once(':').unwrap_or((spec, "0"));
+    let mib: usize = arg.parse().unwrap_or(0);
+    match kind {
+        // ZBSDIFF1 whose extra block inflates to `mib` MiB of zeros
+        "zbomb" => {
+            let ctl = ControlBlock::with_entries(vec![ControlEntry::new(0, 1, 0)]).and_then(|c| c.to_compressed()).unwrap_or_default();
+            let diff = compress_zlib(&[]).unwrap_or_default();
+            let extra = compress_zlib(&vec![0u8; mib << 20]).unwrap_or_default();
+            let mut b = Vec::new();
+            b.extend_from_slice(b"ZBSDIFF1");
+            b.extend_from_slice(&(ctl.len() as i64).to_le_bytes());
+            b.extend_from_slice(&(diff.len() as i64).to_le_bytes());
+            b.extend_from_slice(&1i64.to_le_bytes());
+            b.extend_from_slice(&ctl);
+            b.extend_from_slice(&diff);
+            b.extend_from_slice(&extra);
+            b
+        }
+        // single-chunk BLTE whose zlib chunk inflates to `mib` MiB of zeros
+        "bltebomb" => {
+            let z = compress_zlib(&vec![0u8; mib << 20]).unwrap_or_default();
+            let mut b = b"BLTE\0\0\0\0Z".to_vec();
+            b.extend_from_slice(&z);
+            b
+        }
+        _ => Vec::new(),
+    }
+}
 /// the hostile name a vector of MC_ParserGuard (format "dirnames") stands for
 fn name_of_vector(v: &Value) -> Vec<u8> {
     let num = |k: &str| v[k].as_str().and_then(|t| t.strip_prefix("n:")).and_then(|t| t.parse::<usize>().ok()).unwrap_or(0);
@@ -1231,6 +1373,7 @@ fn all_seeds(tmp: &Path) -> Vec<Vec<Seed>> {
                 v.extend(fixture_files("download", &|n| n.ends_with(".download")));
             }
             "size" => {
+                v.extend(bseed("size_v1_w8", guarded(build_size_w8_seed).unwrap_or_else(Err)));
                 for ver in 1..=2u8 {
                     v.extend(bseed(&format!("size_v{ver}"), guarded(|| build_size_seed(ver)).unwrap_or_else(Err)));
                 }
@@ -1276,7 +1419,7 @@ fn all_seeds(tmp: &Path) -> Vec<Vec<Seed>> {
             }
             "update_section" => v.extend(bseed("update30", guarded(build_update_section_seed).unwrap_or_else(Err))),
             "residency" => v.extend(bseed("residency40", guarded(|| build_residency_seed(tmp)).unwrap_or_else(Err))),
-            "lru" => {
+            "lru" | "lru_ops" => {
                 v.push(Seed { name: "builder/lru5".into(), bytes: build_lru_seed(5), real: false });
                 v.push(Seed { name: "builder/lru0".into(), bytes: build_lru_seed(0), real: false });
             }
@@ -1430,7 +1573,7 @@ fn layout(fmt: &str) -> Vec<Fld> {
         ],
         "install" => vec![fb("magic", 0, 2), fb("version", 2, 1), fb("ckey_length", 3, 1), fb("tag_count", 4, 2), fb("entry_count", 6, 4)],
         "download" => vec![fb("magic", 0, 2), fb("version", 2, 1), fb("ekey_length", 3, 1), fb("has_checksum", 4, 1), fb("entry_count", 5, 4), fb("tag_count", 9, 2), fb("flag_size", 11, 1)],
-        "size" => vec![fb("magic", 0, 2), fb("version", 2, 1), fb("ekey_size", 3, 1), fb("entry_count", 4, 4), fb("tag_count", 8, 2), fb("total_size", 10, 8), fb("esize_bytes", 18, 1)],
+        "size" => vec![fb("magic", 0, 2), fb("version", 2, 1), fb("ekey_size", 3, 1), fb("entry_count", 4, 4), fb("tag_count", 8, 2), fb("total_size", 10, 8), fb("esize_bytes", 18, 1), fb("e0_esize", 28, 8), fb("e1_esize", 45, 8)],
         "tvfs" => vec![
             fb("magic", 0, 4),
             fb("format_version", 4, 1),
@@ -1482,7 +1625,7 @@ fn layout(fmt: &str) -> Vec<Fld> {
             fl("segment_size", 16, 8),
             fl("entry_block_size", 32, 4),
         ],
-        "lru" => vec![fl("version", 0, 2), fl("mru_head", 20, 4), fl("lru_tail", 24, 4), fl("e0_prev", 28, 4), fl("e0_next", 32, 4)],
+        "lru" | "lru_ops" => vec![fl("version", 0, 2), fl("mru_head", 20, 4), fl("lru_tail", 24, 4), fl("e0_prev", 28, 4), fl("e0_next", 32, 4), fl("e1_prev", 48, 4), fl("e1_next", 52, 4), fl("e4_prev", 108, 4), fl("e4_next", 112, 4)],
         "shmem" => vec![fl("version", 0, 1), fl("init", 2, 1), fl("fst_format", 0x108, 4), fl("data_size", 0x10C, 4), fl("exclusive", 0x150, 4), fl("pid_state", 0x154, 4), fl("max_slots", 0x154 + 24, 4), fl("direct_max_slots", 24, 4)],
         "residency" => vec![fl("bucket_id", 0, 1), Fld { name: "page_count", loc: Loc::Dyn(residency_pc), w: 4, be: false }],
         _ => Vec::new(),
@@ -1546,6 +1689,23 @@ fn header_fields(fmt: &str, b: &[u8]) -> Value {
                 }
             }
         }
+        "espec" => {
+            // a digit run followed by K / M whose product leaves u64; the number of ':' (upper bound of the nesting depth)
+            let mut mulovf = false;
+            for (st, en) in digit_runs(b) {
+                let v = std::str::from_utf8(&b[st..en]).ok().and_then(|t| t.parse::<u64>().ok());
+                let mul: Option<u64> = match b.get(en) {
+                    Some(b'K') => Some(1024),
+                    Some(b'M') => Some(1024 * 1024),
+                    _ => None,
+                };
+                if let (Some(v), Some(m)) = (v, mul) {
+                    mulovf |= v.checked_mul(m).is_none();
+                }
+            }
+            m.insert("mulovf".into(), limbs(u64::from(mulovf), 1));
+            m.insert("colons".into(), limbs(b.iter().filter(|&&c| c == b':').count() as u64, 4));
+        }
         "encoding" => {
             // is the ESpec block (as far as present) valid UTF-8?
             if let Some(n) = rd_le(b, 18, 4).map(|x| x.swap_bytes() >> 32) {
@@ -1596,7 +1756,7 @@ fn reseal(fmt: &str, b: &mut Vec<u8>) -> bool {
             b[n - 8..].copy_from_slice(&h.0[..8]);
             true
         }
-        "lru" => {
+        "lru" | "lru_ops" => {
             if b.len() < 28 {
                 return false;
             }
@@ -1651,7 +1811,7 @@ fn pick_offset(rng: &mut Rng, len: usize) -> usize {
 }
 fn mutate_once(rng: &mut Rng, b: &mut Vec<u8>, fmt: &Fmt, other: &[u8], how: &mut String) {
     let len = b.len();
-    let choice = rng.below(if fmt.text { 14 } else { 12 });
+    let choice = rng.below(if fmt.text { 18 } else { 12 });
     match choice {
         0 if len > 0 => {
             let o = pick_offset(rng, len);
@@ -1800,7 +1960,73 @@ fn mutate_once(rng: &mut Rng, b: &mut Vec<u8>, fmt: &Fmt, other: &[u8], how: &mu
                 }
             }
         }
+        14 | 15 if len > 0 => {
+            // text: replace one run of digits (or insert at a random place) by a boundary literal
+            let runs = digit_runs(b);
+            let lit = rng.pick(NUM_LITS).to_string();
+            let unit = *rng.pick(&["", "", "", "K", "M", "*4294967295", "*4294967296", "K*", "M*18446744073709551615"]);
+            let ins = format!("{lit}{unit}").into_bytes();
+            if runs.is_empty() || rng.chance(1, 6) {
+                let o = rng.below(len as u64 + 1) as usize;
+                let _ = b.splice(o..o, ins);
+                how.push_str(&format!("numins@{o}={lit}{unit},"));
+            } else {
+                let (s, e) = *rng.pick(&runs);
+                let _ = b.splice(s..e, ins);
+                how.push_str(&format!("numlit@{s}={lit}{unit},"));
+            }
+        }
+        16 | 17 => {
+            // text: nesting / repetition of one of the format's openers
+            let ops = openers(fmt.name);
+            let (open, close) = *rng.pick(ops);
+            let n = *rng.pick(&[33usize, 65, 129, 1000, 10_000, 100_000, 250_000]);
+            let n = n.min((1 << 20) / open.len().max(1) / 2);
+            let o = if rng.chance(1, 2) { 0 } else { rng.below(len as u64 + 1) as usize };
+            let mut ins = open.repeat(n).into_bytes();
+            if rng.chance(1, 2) {
+                ins.extend_from_slice(&b[o..]);
+                ins.extend_from_slice(close.repeat(n).as_bytes());
+                b.truncate(o);
+                b.extend_from_slice(&ins);
+            } else {
+                let _ = b.splice(o..o, ins);
+            }
+            how.push_str(&format!("nest@{o}:{open:?}x{n},"));
+        }
         _ => {}
+    }
+}
+/// numeric boundary literals of text formats
+const NUM_LITS: &[&str] = &[
+    "0", "1", "255", "256", "65535", "65536", "2147483647", "2147483648", "4294967295", "4294967296", "9007199254740992", "18014398509481984",
+    "9223372036854775807", "9223372036854775808", "18446744073709551615", "18446744073709551616", "36028797018963968", "340282366920938463463374607431768211456",
+    "-1", "-9223372036854775808", "-9223372036854775809", "00000000000000000000000000000000000000001", "1e400", "0x7fffffffffffffff", "99999999999999999999999999999999999999999999999999999999999999999999999999999999",
+];
+fn digit_runs(b: &[u8]) -> Vec<(usize, usize)> {
+    let mut v = Vec::new();
+    let mut i = 0;
+    while i < b.len() {
+        if b[i].is_ascii_digit() {
+            let s = i;
+            while i < b.len() && b[i].is_ascii_digit() {
+                i += 1;
+            }
+            v.push((s, i));
+        } else {
+            i += 1;
+        }
+    }
+    v
+}
+/// (opener, closer) pairs whose repetition nests (or widens) an input of a text format
+fn openers(fmt: &str) -> &'static [(&'static str, &'static str)] {
+    match fmt {
+        "espec" => &[("b:", ""), ("b:{", "}"), ("b:{1=", "}"), ("e:{0123456789ABCDEF,01020304,", "}"), ("b:{*=", "}"), ("z:{", "}")],
+        "product_config" => &[("[", "]"), ("{\"a\":", "}"), ("{\"all\":{\"config\":{\"opaque_complex_data\":[", "]}}}")],
+        "mime" => &[("--b\r\nContent-Type: multipart/mixed; boundary=b\r\n\r\n", "--b--\r\n"), ("Content-Type: multipart/mixed; boundary=\"x\"\r\n\r\n--x\r\n", "\r\n--x--\r\n"), ("(", ")"), ("<", ">")],
+        "bpsv" | "build_info" => &[("|", ""), ("\n", ""), ("x!STRING:0|", ""), ("## ", ""), ("a|", "")],
+        _ => &[(" ", ""), ("\n", ""), (" = ", ""), ("a = b\n", ""), ("key-", ""), ("patch-entry = ", "")],
     }
 }
 fn mutate(rng: &mut Rng, seed: &[u8], fmt: &Fmt, other: &[u8]) -> (Vec<u8>, String) {
@@ -2390,12 +2616,22 @@ fn family_members(fam: &str) -> Vec<&'static str> {
         "blte" => vec!["blte", "blte_decompress"],
         "archive_index" => vec!["archive_index", "archive_group"],
         "zbsdiff" => vec!["zbsdiff", "zbsdiff_apply"],
+        "zbsdiff_ctl" => vec!["zbsdiff_apply"],
+        "lru" => vec!["lru", "lru_ops"],
         other => FORMATS.iter().filter(|f| f.name == other).map(|f| f.name).collect(),
     }
 }
 impl Plan {
-    fn new(tmp: &Path, vectors: Vec<Value>, bprogs: Vec<Value>, nmut: u64, seed: u64, only: Option<Vec<String>>, no_fixtures: bool) -> Self {
-        let seeds = all_seeds(tmp);
+    fn new(tmp: &Path, vectors: Vec<Value>, bprogs: Vec<Value>, nmut: u64, seed: u64, only: Option<Vec<String>>, no_fixtures: bool, bombs: bool) -> Self {
+        let mut seeds = all_seeds(tmp);
+        if bombs {
+            // decompression bombs beyond the 1 GiB cap (generated, ~1.2 MB each): the decoder must refuse them
+            for (f, g) in [("zbsdiff_apply", "zbomb:1200"), ("blte_decompress", "bltebomb:1200")] {
+                if let Some(fi) = fmt_index(f) {
+                    seeds[fi].push(Seed { name: format!("generated/{g}"), bytes: generate(g), real: false });
+                }
+            }
+        }
         let enabled: Vec<usize> = (0..FORMATS.len()).filter(|&i| only.as_ref().is_none_or(|o| o.iter().any(|n| n == FORMATS[i].name))).collect();
         let mut fixtures = Vec::new();
         if !no_fixtures {
@@ -2417,8 +2653,16 @@ impl Plan {
                 if let Some(r) = seeds[fi].iter().position(|s| s.real) {
                     used.push(r);
                 }
-                if name == "dirnames" {
+                if name == "dirnames" || name == "zbsdiff_apply" && v["fmt"].as_str() == Some("zbsdiff_ctl") {
                     used = vec![0];
+                } else if FORMATS[fi].text {
+                    // text vectors: up to three seeds that contain a number
+                    used = (0..seeds[fi].len()).filter(|&k| seeds[fi][k].bytes.iter().any(u8::is_ascii_digit)).take(3).collect();
+                    if used.is_empty() {
+                        used = vec![0];
+                    }
+                } else if !seeds[fi].iter().any(|s| s.real) {
+                    used = (0..seeds[fi].len().min(3)).collect();
                 }
                 // an explicit seed selector of the vector (e.g. the extended-header variants)
                 if let Some(want) = v["seed"].as_str() {
@@ -2451,6 +2695,14 @@ impl Plan {
                 let n = name_of_vector(&v["v"]);
                 let how = format!("name={}", String::from_utf8_lossy(&n));
                 return Job { vector: Some(v["v"].clone()), idx: i, fi, src: "model", seed: "vector".into(), how, bytes: n, exact: false, prog: None };
+            }
+            if v["fmt"].as_str() == Some("zbsdiff_ctl") {
+                let (b, how) = zbs_of_vector(&v["v"]);
+                return Job { vector: Some(v["v"].clone()), idx: i, fi, src: "model", seed: "vector".into(), how, bytes: b, exact: false, prog: None };
+            }
+            if FORMATS[fi].text && v["v"].get("lit").is_some() {
+                let (b, how) = text_of_vector(FORMATS[fi].name, &v["v"], &s.bytes);
+                return Job { vector: Some(v["v"].clone()), idx: i, fi, src: "model", seed: s.name.clone(), how, bytes: b, exact: false, prog: None };
             }
             let mut b = s.bytes.clone();
             let lay = layout(FORMATS[fi].name);
@@ -2492,7 +2744,8 @@ impl Plan {
             }
             pick -= w;
         }
-        let ss = &self.seeds[fi];
+        // generated bombs are inputs of their own, not mutation bases
+        let ss: Vec<&Seed> = self.seeds[fi].iter().filter(|s| !s.name.starts_with("generated/")).collect();
         let small: Vec<usize> = (0..ss.len()).filter(|&k| ss[k].bytes.len() <= 4096).collect();
         let si = if !small.is_empty() && rng.chance(7, 10) { *rng.pick(&small) } else { rng.below(ss.len() as u64) as usize };
         let oi = rng.below(ss.len() as u64) as usize;
@@ -2921,7 +3174,10 @@ fn parent_main(args: &[String]) {
                 },
                 seed: obj["seed"].as_str().unwrap_or("").to_string(),
                 how: obj["how"].as_str().unwrap_or("").to_string(),
-                bytes: hex::decode(obj["hex"].as_str().unwrap_or("")).expect("hex input"),
+                bytes: match obj["gen"].as_str() {
+                    Some(g) => generate(g),
+                    None => hex::decode(obj["hex"].as_str().unwrap_or("")).expect("hex input"),
+                },
                 exact: obj["exact"].as_bool().unwrap_or(false),
                 prog: None,
             },
@@ -2948,7 +3204,7 @@ fn parent_main(args: &[String]) {
     let vectors = read_ndjson(arg(args, "--vectors"));
     let bprogs = read_ndjson(arg(args, "--bprogs"));
     let nmut = arg_u64(args, "--mutations", 0);
-    let plan = Plan::new(&tmp, vectors, bprogs, nmut, seed_from_env(), only, has_flag(args, "--no-fixtures"));
+    let plan = Plan::new(&tmp, vectors, bprogs, nmut, seed_from_env(), only, has_flag(args, "--no-fixtures"), has_flag(args, "--bombs"));
     if let Some(i) = arg(args, "--dump-job").and_then(|s| s.parse::<u64>().ok()) {
         let j = plan.job(i);
         println!("{}", json!({"id": j.idx, "fmt": FORMATS[j.fi].name, "src": j.src, "seed": j.seed, "how": j.how, "exact": j.exact, "hex": hex::encode(&j.bytes), "prog": j.prog, "v": j.vector}));
@@ -3051,7 +3307,11 @@ fn child_main(args: &[String]) {
 fn main() {
     let args: Vec<String> = std::env::args().collect();
     if has_flag(&args, "--child") {
-        child_main(&args);
+        // the code under test runs on a thread with the stack Rust gives every spawned thread (2 MiB; tokio
+        // workers too): unbounded recursion overflows it, the runtime aborts the process, the parent records it
+        let a = args.clone();
+        let h = std::thread::Builder::new().name("parser".into()).stack_size(CHILD_STACK).spawn(move || child_main(&a)).expect("spawn parser thread");
+        let _ = h.join();
         return;
     }
     parent_main(&args);
